@@ -41,6 +41,16 @@ pub fn from_records(items: &[NItem<'_>], full_lines: bool) -> Universe {
     let mut u = Universe { in_domain: true, ..Default::default() };
     let mut cur: Option<ClassU> = None;
     let big = |v: usize| v as u64 >= U32M;
+    // original -> obfuscated class names: a parameter string may be SPELLED with the obfuscated
+    // name of a class it mentions (which no by-params entry is keyed by)
+    let renames: Vec<(&str, &str)> = items
+        .iter()
+        .filter_map(|i| match i {
+            Ok(NRec::Class { original, obfuscated }) if original != obfuscated && !original.is_empty() => Some((*original, *obfuscated)),
+            _ => None,
+        })
+        .take(32)
+        .collect();
     for it in items {
         let Ok(r) = it else { continue };
         u.n_records += 1;
@@ -66,6 +76,15 @@ pub fn from_records(items: &[NItem<'_>], full_lines: bool) -> Universe {
                 if let Some(c) = cur.as_mut() {
                     push_unique(&mut c.methods, obfuscated, 64);
                     push_unique(&mut c.args, arguments, 16);
+                    if !arguments.is_empty() {
+                        for (o, b) in &renames {
+                            if arguments.split(',').any(|t| t.trim_end_matches("[]") == *o) {
+                                let spelled: Vec<String> = arguments.split(',').map(|t| if t.trim_end_matches("[]") == *o { t.replacen(o, b, 1) } else { t.to_string() }).collect();
+                                push_unique(&mut c.args, &spelled.join(","), 24);
+                                break;
+                            }
+                        }
+                    }
                     if let Some((s, e, _, _)) = line_mapping {
                         let (s, e) = (*s as u64, *e as u64);
                         for v in [s.saturating_sub(1), s, s.saturating_add(1), e.saturating_sub(1), e, e.saturating_add(1)] {
